@@ -3,7 +3,9 @@ package rules
 import (
 	"fmt"
 	"go/ast"
+	"go/types"
 	"regexp"
+	"sort"
 	"strings"
 
 	"pigeonverif/internal/load"
@@ -482,6 +484,7 @@ func optimizerMergeCases(c *Ctx, g *load.G) {
 					if k := indexTop(txt, "="); k > 0 {
 						txt = txt[:k+1] + resolveChain(p, i, txt[k+1:])
 					}
+					txt = canonSingleRune(txt)
 					if strings.Contains(txt, ef) {
 						found = true
 					}
@@ -763,4 +766,149 @@ func cleanupKeepsMembers(c *Ctx, g *load.G, cf *ast.FuncDecl) string {
 		bad = append(bad, "the stride-2 loops over the range pairs (duplicate removal, text) were not found")
 	}
 	return strings.Join(uniq(bad), "; ")
+}
+
+var runeLitPairRe = regexp.MustCompile(`\[\]rune\{RUNEOF<([^<>]+)>,RUNEOF<([^<>]+)>\}`)
+var appendOneRe = regexp.MustCompile(`,RUNEOF<([^<>]+)>\)`)
+
+// canonSingleRune: where a string is known to hold exactly one rune (the guard every literal merge requires), its
+// first decoded rune is all of its runes: `append(cs, r)` with r decoded from s reads `append(cs, []rune(s)...)`, and
+// `[]rune{r0, r1}` reads `append([]rune(s0), []rune(s1)...)`.
+func canonSingleRune(t string) string {
+	const pre = "res0(utf8.DecodeRuneInString("
+	if !strings.Contains(t, pre) {
+		return t
+	}
+	for {
+		i := strings.Index(t, pre)
+		if i < 0 {
+			break
+		}
+		// the argument, up to the parenthesis that closes DecodeRuneInString(
+		depth, j := 1, i+len(pre)
+		for ; j < len(t) && depth > 0; j++ {
+			switch t[j] {
+			case '(':
+				depth++
+			case ')':
+				depth--
+			}
+		}
+		if depth != 0 || j >= len(t) || t[j] != ')' {
+			break
+		}
+		arg := t[i+len(pre) : j-1]
+		t = t[:i] + "RUNEOF<" + arg + ">" + t[j+1:]
+	}
+	t = runeLitPairRe.ReplaceAllString(t, "append([]rune($1),[]rune($2)...)")
+	t = appendOneRe.ReplaceAllString(t, ",[]rune($1)...)")
+	return t
+}
+
+// optimizerSlotCoverage (C09-g): the inlining pass offers every operand slot to optimizeRule. The bookkeeping that
+// decides whether a rule is still used is kept per (using rule, used rule) and is cleared the first time one
+// reference of that pair is inlined; a rule is removed when no pair is left. That is sound only if every reference of
+// a rule body is inlined in the same pass, i.e. only if the visitor hands every Expression child of every kind (and of
+// Rule) to optimizeRule: a slot that is skipped keeps its reference while the referenced rule is removed, and the
+// optimized parser fails with "undefined rule" where the plain one matches.
+func optimizerSlotCoverage(c *Ctx, g *load.G, rule string) {
+	r := c.R
+	ap := g.Pkg("ast")
+	fd := load.FuncDecl(ap, "grammarOptimizer", "optimize")
+	if fd == nil {
+		r.Fatal("anchor grammarOptimizer.optimize not found")
+		return
+	}
+	recv, x := recvName(fd), firstParam(fd)
+	kinds, _ := c.exprKinds()
+	type slot struct {
+		field string
+		list  bool
+	}
+	slots := map[string][]slot{}
+	for _, k := range kinds {
+		st, _ := k.Named.Underlying().(*types.Struct)
+		for _, ch := range k.Children {
+			isList := false
+			if st != nil {
+				for i := 0; i < st.NumFields(); i++ {
+					if st.Field(i).Name() == ch {
+						_, isList = st.Field(i).Type().(*types.Slice)
+					}
+				}
+			}
+			slots[k.Name] = append(slots[k.Name], slot{ch, isList})
+		}
+	}
+	slots["Rule"] = []slot{{"Expr", false}}
+	paths := c.astNorm().without("optimizeRule", "optimizeRules", "cleanupCharClassMatcher").normPaths(fd)
+	if len(paths) == 0 {
+		r.Unk(rule, "G.ast.optimize:every-operand-slot-offered-to-inlining", "", g.Where(fd.Pos()), "the visitor could not be enumerated")
+		return
+	}
+	// optimizeRules, where it exists, replaces every element
+	listHelperOK := true
+	if lf := load.FuncDecl(ap, "grammarOptimizer", "optimizeRules"); lf != nil {
+		lp := firstParam(lf)
+		lr := recvName(lf)
+		listHelperOK = false
+		for _, p := range c.astNorm().without("optimizeRule").normPaths(lf) {
+			for _, e := range p {
+				if e.Kind == "set" && (e.Text == lp+"[#1]="+lr+".optimizeRule("+lp+"[#1])" || strings.HasPrefix(e.Text, lp+"[$") && strings.Contains(e.Text, "]="+lr+".optimizeRule("+lp+"[$")) {
+					listHelperOK = true
+				}
+			}
+		}
+	}
+	var names []string
+	for k := range slots {
+		names = append(names, k)
+	}
+	sort.Strings(names)
+	var bad []string
+	nSlots := 0
+	for _, k := range names {
+		var kp []bpath
+		for _, p := range paths {
+			for _, e := range p {
+				if e.Kind == "tcase" && strings.HasSuffix(e.Text, ":*"+k) {
+					kp = append(kp, p)
+					break
+				}
+			}
+		}
+		if len(kp) == 0 {
+			var fs []string
+			for _, s := range slots[k] {
+				fs = append(fs, s.field)
+			}
+			bad = append(bad, fmt.Sprintf("%s has operand slot(s) %s but the inlining pass has no case for it: a reference standing directly in such a slot is never inlined, while the rule it names is removed as soon as another reference of the same rule body was", k, strings.Join(fs, ", ")))
+			continue
+		}
+		for _, s := range slots[k] {
+			nSlots++
+			target := x + "." + s.field
+			for _, p := range kp {
+				ok := false
+				for _, e := range p {
+					if e.Kind != "set" {
+						continue
+					}
+					t := strings.TrimPrefix(stripAsserts(e.Text), "*&")
+					switch {
+					case !s.list && t == target+"="+recv+".optimizeRule("+target+")":
+						ok = true
+					case s.list && t == target+"="+recv+".optimizeRules("+target+")" && listHelperOK:
+						ok = true
+					case s.list && strings.HasPrefix(t, target+"[") && strings.Contains(t, "]="+recv+".optimizeRule("+target+"["):
+						ok = true
+					}
+				}
+				if !ok {
+					bad = append(bad, fmt.Sprintf("a path of the %s case does not pass %s through optimizeRule [%s]", k, target, abbreviate(strings.Join(p.facts(), " "))))
+				}
+			}
+		}
+	}
+	r.Check(len(bad) == 0, rule, "G.ast.optimize:every-operand-slot-offered-to-inlining", "", g.Where(fd.Pos()), fmt.Sprintf("%d operand slots of %d kinds, each stored from optimizeRule on every path of its case", nSlots, len(names)), strings.Join(uniq(bad), "; "))
 }
